@@ -191,6 +191,23 @@ def laws(F, k):
     tp = F['m4_transform_point3'] if n == 3 else F['m3_transform_point2']
     L.eq(tp(to_matrix(a), p), apply_pt(a, p))
     out.append(L)
+    # inverse_transform undoes the transform: for any `ri` with rot * ri = ri * rot = 1 (what the contract of
+    # Rotation::invert / inverse_transform guarantees) and scale != 0, the transform the contract pins down
+    # (scale 1/s, rotation ri, displacement -(ri disp)/s) is a two-sided inverse on points and on vectors
+    L = CertLaw('dec%s_undo' % k, [('a', D), ('ri', Mn), ('p', Pn), ('v', Vn)])
+    a, ri, p, v = L.vars
+    for x, y in zip(g('mul')(a.rot.mat, ri).leaves(), g('identity')().leaves()):
+        L.require_eq(x, y)
+    for x, y in zip(g('mul')(ri, a.rot.mat).leaves(), g('identity')().leaves()):
+        L.require_eq(x, y)
+    L.require_nonzero(a.scale)
+    rs = R.lit(1) / a.scale
+    inv = D(rs, Bn(ri), gv('scale')(g('mulv')(ri, a.disp), -rs))
+    L.eq(apply_pt(inv, apply_pt(a, p)), p)
+    L.eq(apply_pt(a, apply_pt(inv, p)), p)
+    L.eq(apply_vec(inv, apply_vec(a, v)), v)
+    L.eq(apply_vec(a, apply_vec(inv, v)), v)
+    out.append(L)
     return out
 
 
@@ -252,6 +269,43 @@ pub proof fn law_decq_compose(a: Decomposed<Vector3<Sc>, Quaternion<Sc>>, b: Dec
     law_decb3_compose(ab, bb, p, v);
     law_decb3_matrix(ab, bb, v);
     law_decb3_matrix_pt(ab, p);
+}
+
+// inverse_transform undoes the transform (unit rotation, scale != 0): the transform its contract pins down is a two-sided inverse
+pub open spec fn dec_inverse(a: Decomposed<Vector3<Sc>, Quaternion<Sc>>) -> Decomposed<Vector3<Sc>, Quaternion<Sc>> {
+    Decomposed { scale: s_div(s_one(), a.scale), rot: q_invert(a.rot), disp: v3_scale(q_rotv(q_invert(a.rot), a.disp), s_neg(s_div(s_one(), a.scale))) }
+}
+pub proof fn law_decq_undo(a: Decomposed<Vector3<Sc>, Quaternion<Sc>>, p: Point3<Sc>, v: Vector3<Sc>)
+    requires dec_unit(a), a.scale@ != 0real
+    ensures dec_apply_pt(dec_inverse(a), dec_apply_pt(a, p)) == p,
+        dec_apply_pt(a, dec_apply_pt(dec_inverse(a), p)) == p,
+        dec_apply_vec(dec_inverse(a), dec_apply_vec(a, v)) == v,
+        dec_apply_vec(a, dec_apply_vec(dec_inverse(a), v)) == v,
+        dec_unit(dec_inverse(a)),
+{
+    let q = a.rot;
+    let qi = q_invert(q);
+    let inv = dec_inverse(a);
+    law_q_ring(q, qi, qi);
+    assert(q_magnitude2(q)@ == q.s@ * q.s@ + q.v.x@ * q.v.x@ + q.v.y@ * q.v.y@ + q.v.z@ * q.v.z@);
+    law_q_inverse(q);
+    law_q_ring(q_one(), q_one(), q_one());
+    assert(q_magnitude2(q_one())@ == 1real);
+    assert(q_magnitude2(q)@ * q_magnitude2(qi)@ == 1real);
+    assert(q_magnitude2(qi)@ == 1real) by(nonlinear_arith) requires q_magnitude2(q)@ * q_magnitude2(qi)@ == 1real, q_magnitude2(q)@ == 1real;
+    law_m_from_q_compose(q, qi);
+    law_m_from_q_compose(qi, q);
+    assert(m3_from_q(q_one()) == m3_identity());
+    let (m, ri) = (m3_from_q(q), m3_from_q(qi));
+    assert(m3_mul(m, ri) == m3_identity());
+    assert(m3_mul(ri, m) == m3_identity());
+    law_m_from_q_action(qi, a.disp);
+    law_decq_bridge(a, inv, p, v);
+    law_decq_bridge(inv, a, p, v);
+    law_decq_bridge(a, inv, dec_apply_pt(inv, p), dec_apply_vec(inv, v));
+    law_decq_bridge(inv, a, dec_apply_pt(a, p), dec_apply_vec(a, v));
+    assert(dec_as_b3(inv) == (Decomposed::<Vector3<Sc>, Basis3<Sc>> { scale: s_div(s_one(), a.scale), rot: (Basis3 { mat: ri }), disp: v3_scale(m3_mulv(ri, a.disp), s_neg(s_div(s_one(), a.scale))) }));
+    law_decb3_undo(dec_as_b3(a), ri, p, v);
 }
 ''')
     return out
